@@ -435,11 +435,12 @@ def job_record(k_extra, directio, nblocks, bpf, nant, template, prior=None):
     return recs
 
 
-def job_config_fields(nant):
-    """_header_populate_configuration with arbitrary (symbolic) user values under configuration-owned keys"""
+def job_config_fields(nant, asc=True):
+    """_header_populate_configuration with arbitrary (symbolic) user values under configuration-owned keys,
+    for ascending and descending bands (CHAN_BW, OBSBW negative, OBSFREQ counted downwards)"""
     recs = []
     with volt_patches():
-        be, ant, ws = C02.build(4, 2, 2, 1, 2, nant, 8, 1, 1, 2)
+        be, ant, ws = C02.build(4, 2, 2, 1, 2, nant, 8, 1, 1, 2, asc)
         be.num_blocks, be.obs_length = 3, 3 * be.time_per_block
         hd = {k: Sym(z3.Real(f'user_{k}')) for k in OWNED}
         hd['USERCARD'] = Sym(z3.Real('user_card'))
@@ -449,13 +450,13 @@ def job_config_fields(nant):
                 CHAN_BW=be.chan_bw * 1e-6, OBSBW=be.chan_bw * be.num_chans * 1e-6, OBSFREQ=center * 1e-6, SCANLEN=be.obs_length)
     for k, v in want.items():
         r, _ = core.check([lift(out.get(k, Sym(z3.Real('missing')))) != RV(v)], timeout_ms=30000)
-        recs.append(q(f'C04:config-owned:{nant}:{k}', r))
+        recs.append(q(f"C04:config-owned:{nant}:{'asc' if asc else 'desc'}:{k}", r))
         if r == 'sat':
-            recs.append(cex(f'C04:config-owned:{k}', f'user-supplied {k} overrides the configuration value {v}', dict(fn='record', k_extra=0, directio=None, nblocks=1, bpf=1, nant=nant, template=False), name=f'C04:config-owned:{nant}:{k}'))
+            recs.append(cex(f'C04:config-owned:{k}', f'user-supplied {k} overrides the configuration value {v}', dict(fn='config', nant=nant, asc=asc, key=k), name=f"C04:config-owned:{nant}:{'asc' if asc else 'desc'}:{k}"))
     r, _ = core.check([lift(out['USERCARD']) != z3.Real('user_card')])
-    recs.append(q(f'C04:config-owned:{nant}:user-card-kept', r))
+    recs.append(q(f"C04:config-owned:{nant}:{'asc' if asc else 'desc'}:user-card-kept", r))
     r, _ = core.check([lift(out['USERCARD']) != 0])
-    recs.append(q(f'C04:config-owned:{nant}:twin', r, expect='sat'))
+    recs.append(q(f"C04:config-owned:{nant}:{'asc' if asc else 'desc'}:twin", r, expect='sat'))
     return recs
 
 
@@ -621,7 +622,32 @@ def replay_readers(p):
     return replay_record(pp)
 
 
-REPLAYS = {'make_header': replay_make_header, 'record': replay_record, 'readers': replay_readers}
+def replay_config(p):
+    """real recording from an ascending / descending source: the pipeline-owned cards describe the configuration"""
+    import os
+    import shutil
+    import tempfile
+    from setigen.voltage import backend as bk, polyphase_filterbank as pf, quantization as qz, antenna as an, raw_utils as ru
+    nant, asc = p['nant'], p['asc']
+    src = an.Antenna(sample_rate=1024.0, fch1=5000.0, ascending=asc, num_pols=2, seed=1) if nant == 1 else an.MultiAntennaArray(nant, sample_rate=1024.0, fch1=5000.0, ascending=asc, num_pols=2, delays=[0] * nant, seed=1)
+    for st in (src.streams if nant == 1 else [s_ for a in src.antennas for s_ in a.streams]):
+        st.add_noise(0, 1)
+    be = bk.RawVoltageBackend(src, qz.RealQuantizer(), pf.PolyphaseFilterbank(num_taps=2, num_branches=8), qz.ComplexQuantizer(), start_chan=1, num_chans=2,
+                              block_size=4 * 2 * nant * 2 * 4, blocks_per_file=2, num_subblocks=1)
+    d = tempfile.mkdtemp(prefix='c04c_', dir='/var/tmp')
+    try:
+        be.record(os.path.join(d, 'o'), num_blocks=2, length_mode='num_blocks', header_dict={'OBSBW': 1.0, 'CHAN_BW': 9.0}, verbose=False, load_template=False)
+        h = ru.read_header(os.path.join(d, 'o.0000.raw'))
+    finally:
+        shutil.rmtree(d, ignore_errors=True)
+    sgn = 1.0 if asc else -1.0
+    cbw = sgn * 1024.0 / 8 * 1e-6
+    want = dict(CHAN_BW=cbw, OBSBW=cbw * 2, OBSFREQ=(5000.0 + sgn * (1 + 0.5) * 1024.0 / 8) * 1e-6, TBIN=8 / 1024.0, OBSNCHAN=2 * nant, NBITS=8, NPOL=2)
+    bad = [f"{k}={h.get(k)} (configuration: {v!r})" for k, v in want.items() if not np.isclose(float(h.get(k, 'nan')), v, rtol=1e-12, atol=0)]
+    return bool(bad), ('; '.join(bad) or 'configuration cards describe the configuration') + f" [{'ascending' if asc else 'descending'}, {nant} antenna(s)]"
+
+
+REPLAYS = {'config': replay_config, 'make_header': replay_make_header, 'record': replay_record, 'readers': replay_readers}
 
 
 def main():
@@ -657,6 +683,7 @@ def main():
         jobs.append(('job_record', cur + (prior,)))
     for nant in (1, 2):
         jobs.append(('job_config_fields', (nant,)))
+        jobs.append(('job_config_fields', (nant, False)))
     ck.bounds = dict(header_cards='symbolic integer >= 1 (size obligations); 0..40 cards executed; user cards 0..33 in recordings', directio=[v for v, _ in DIRECTIO_VARIANTS],
                      blocks='1..5', blocks_per_file='1..3 (recordings), symbolic n with bpf in 1..128 (split slice)', listing='all permutations of <= 3 files')
     ck.run_jobs('props.C04', jobs, timeout_s=900)
